@@ -23,6 +23,7 @@ import (
 	serverconfig "github.com/openfga/openfga/pkg/server/config"
 	"github.com/openfga/openfga/pkg/storage"
 	"github.com/openfga/openfga/pkg/typesystem"
+	"google.golang.org/grpc/status"
 )
 
 var errInjected = errors.New("injected iterator failure")
@@ -538,7 +539,7 @@ var loEngines = []loEngine{
 }
 
 // listObjects returns (sorted objects, error class: 0 none, 1 condition, 2 depth/complexity,
-// 3 other, 4 timeout, 5 the call did not return within the watchdog time).
+// 3 other, 4 timeout, 5 the call did not return within the watchdog time, 6 not run, 7 invalid request).
 func listObjects(ctx context.Context, env *scen.Env, resolver graph.CheckResolver, e loEngine, typ, rel, user string, breadth uint32) ([]string, int) {
 	type result struct {
 		objs []string
@@ -557,8 +558,8 @@ func listObjects(ctx context.Context, env *scen.Env, resolver graph.CheckResolve
 	}
 }
 
-const loDeadline = 5 * time.Second
-const loWatchdog = 12 * time.Second
+const loDeadline = 3 * time.Second
+const loWatchdog = 6 * time.Second
 
 func listObjects1(ctx context.Context, env *scen.Env, resolver graph.CheckResolver, e loEngine, typ, rel, user string, breadth uint32) ([]string, int) {
 	flags := []string{}
@@ -590,7 +591,16 @@ func listObjects1(ctx context.Context, env *scen.Env, resolver graph.CheckResolv
 	})
 	if err != nil {
 		if os.Getenv("C02_VERBOSE") != "" {
-			fmt.Fprintf(os.Stderr, "LO %s %s#%s@%s: %v\n", e.Name, typ, rel, user, err)
+			fmt.Fprintf(os.Stderr, "LO %s %s#%s@%s: %v (%v)\n", e.Name, typ, rel, user, err, errors.Unwrap(err))
+		}
+		if st, ok := status.FromError(err); ok {
+			c := int(st.Code())
+			switch {
+			case c == int(openfgav1.InternalErrorCode_deadline_exceeded), c == int(openfgav1.ErrorCode_cancelled):
+				return nil, 4
+			case c >= 2000 && c < 3000:
+				return nil, 7 // the request is rejected by validation
+			}
 		}
 		switch {
 		case errors.Is(err, condition.ErrEvaluationFailed):
@@ -645,6 +655,7 @@ func runLO(ctx context.Context, w *rec.Writer, r *rec.Rand, g *rig, s *scen.Scen
 	objects := s.Objects(subjects...)
 	atoms := in.Atoms(s, objects)
 	var svs []rec.V
+	hung := map[string]bool{}
 	for _, sub := range subjects {
 		var pxs []rec.V
 		for _, p := range env.PathX(sub) {
@@ -657,7 +668,14 @@ func runLO(ctx context.Context, w *rec.Writer, r *rec.Rand, g *rig, s *scen.Scen
 				distinct := map[string]bool{}
 				for ei, e := range loEngines {
 					breadth := []uint32{10, 1, 2}[ei%3]
-					objs, ec := listObjects(ctx, env, g.chain(3, defaultTuning).r, e, td.Name, rd.Name, sub, breadth)
+					var objs []string
+					ec := 6 // not run: an earlier call of this engine family did not return on this relation
+					if !(e.Pipe && hung[td.Name+"#"+rd.Name]) {
+						objs, ec = listObjects(ctx, env, g.chain(3, defaultTuning).r, e, td.Name, rd.Name, sub, breadth)
+						if ec == 5 {
+							hung[td.Name+"#"+rd.Name] = true
+						}
+					}
 					w.Stat("lo_calls", 1)
 					var ovs []rec.V
 					for _, o := range objs {
